@@ -3,6 +3,7 @@ package authx
 import (
 	"fmt"
 	"sort"
+	"strings"
 	"sync"
 
 	ref "verif/ref/sshauthref"
@@ -101,6 +102,9 @@ func NewLocal() *Local {
 }
 
 func (l *Local) Add(spec string, r *ref.Report) {
+	if r.Terminal == "" && r.Steps == 0 && len(r.Problems) == 0 {
+		return // not judged (panic, hang guard, skipped)
+	}
 	l.n++
 	l.steps += int64(r.Steps)
 	l.term[r.Terminal]++
@@ -134,6 +138,10 @@ func (st *Stats) Flush(c *vf.Ctx, label string) {
 	defer st.mu.Unlock()
 	for k := range st.States {
 		c.State(k)
+		// non-trivial: reached through a partial success, a counted failure or a cached key decision
+		if strings.Contains(k, "partial=true") || !strings.Contains(k, "fail=0 ") || !strings.Contains(k, "lastpk=-") {
+			c.Nontrivial(k)
+		}
 	}
 	c.Transition(int(st.Steps))
 	c.TraceValidated(int(st.Runs))
@@ -153,6 +161,14 @@ func (st *Stats) Flush(c *vf.Ctx, label string) {
 
 // Report turns the problems of a run into violations.
 func Report(c *vf.Ctx, prop, via string, spec *Spec, hist []Item, r *Run) {
+	if r.Hung || r.Skipped {
+		if r.Hung {
+			c.Outcome("end-to-end:hang-guard-fired")
+			c.Set("hang_guard_fired_on", map[string]any{"config": spec.Name, "history": Names(hist)})
+		}
+		c.Capped("end-to-end pass: the server neither answered a request nor closed the connection before the hang guard fired; remaining end-to-end histories not run")
+		return
+	}
 	if r.Panic != "" {
 		c.Violation(prop+": panic or harness failure in the authentication of a scripted client ("+via+")",
 			map[string]any{"config": spec.Name, "history": Names(hist), "panic": r.Panic})
